@@ -165,6 +165,26 @@ let () =
            | Some xb when xb.x_name <> xa.x_name || xb.x_subtype <> xa.x_subtype || xb.x_infos <> xa.x_infos ->
                Some ("identity-attrs-changed@" ^ dec_of_n g)
            | _ -> None) (extras_of cur) in
+         (* Group attributes (kind, subkind, dont_merge) of every object present before and after, by gp_index: no call may
+            change them (an in-place replacement by an inserted Group does) *)
+         let gattrs = Stdlib.List.filter_map (fun (o : dobj) ->
+           match o.o_gp with
+           | Some g -> (match find_by_gp b.pd g with
+                        | Some ob when ob.o_type = o.o_type &&
+                                       (ob.o_group_kind <> o.o_group_kind || ob.o_group_subkind <> o.o_group_subkind
+                                        || (get_extra exb g).x_dm <> (get_extra (extras_of cur) g).x_dm) ->
+                            Some ("group-attrs-changed@" ^ dec_of_n g)
+                        | _ -> None)
+           | None -> None) cur.pd.t_objs in
+         let ident = ident @ gattrs in
+         (* kinds (before the call) of the Groups whose userdata / identity / Group attributes changed *)
+         let changed_gps = Stdlib.List.filter_map (fun tok ->
+             match Stdlib.String.index_opt tok '@' with
+             | Some i -> Some (n_of_dec (Stdlib.String.sub tok (i + 1) (Stdlib.String.length tok - i - 1)))
+             | None -> None) ident
+           @ Stdlib.List.filter_map (fun (c, g) -> if ocaml_of_coq_string c = "userdata-changed" then Some g else None) vs in
+         let ck = Stdlib.List.sort_uniq compare (Stdlib.List.filter_map (fun g ->
+             match find_by_gp b.pd g with Some ob when int_of_n ob.o_type = 13 -> Some (dec_of_z ob.o_group_kind) | _ -> None) changed_gps) in
          (* Groups that vanished in a call that is not a restrict: their kinds (the defect known so far only
             replaces a Group of strictly LARGER kind) *)
          let vk = if may_remove then [] else Stdlib.List.filter_map (fun (o : dobj) ->
@@ -172,7 +192,8 @@ let () =
            | Some g when find_by_gp cur.pd g = None -> Some (dec_of_z o.o_group_kind)
            | _ -> None) b.pd.t_objs in
          let tail = (if ident = [] then "" else " " ^ Stdlib.String.concat " " ident)
-                    ^ (if vk = [] then "" else " vanished-group-kinds=" ^ Stdlib.String.concat "," vk) in
+                    ^ (if vk = [] then "" else " vanished-group-kinds=" ^ Stdlib.String.concat "," vk)
+                    ^ (if ck = [] then "" else " changed-group-kinds=" ^ Stdlib.String.concat "," ck) in
          if vs = [] && ident = [] then print_endline "hist ok" else print_endline ("hist VIOLATION " ^ show_viols vs ^ tail)
      | _ -> print_endline "hist ok");
     print_endline (if same then "same 1" else "same 0");
